@@ -643,7 +643,14 @@ func (srv *server) addMsgToQueueLocked(now time.Time, clientID string, msg *gmqt
 		},
 	})
 	if err != nil {
-		srv.clients[clientID].queueNotifier.notifyDropped(msg, &queue.InternalError{Err: err})
+		// the client may be offline (not in srv.clients) while its persistent queue fails
+		if c := srv.clients[clientID]; c != nil {
+			c.queueNotifier.notifyDropped(msg, &queue.InternalError{Err: err})
+		} else {
+			zaplog.Error("fail to add message to the queue of an offline client",
+				zap.String("client_id", clientID),
+				zap.Error(err))
+		}
 		return
 	}
 }
